@@ -98,6 +98,9 @@ type Config struct {
 	ShardI     int
 	ShardN     int
 	MaxMism    int
+	// When restricts judged steps: argument name -> allowed values. A step whose args do
+	// not match is replayed but none of its keys is judged for this property.
+	When map[string][]any
 }
 
 // LoadConfig reads VERIF_* variables.
@@ -123,11 +126,19 @@ func LoadConfig() Config {
 			c.Draws = n
 		}
 	}
+	if s := os.Getenv("VERIF_MAXMISM"); s != "" {
+		if n, err := strconv.Atoi(s); err == nil && n > 0 {
+			c.MaxMism = n
+		}
+	}
 	if s := os.Getenv("VERIF_SHARD"); s != "" {
 		fmt.Sscanf(s, "%d/%d", &c.ShardI, &c.ShardN)
 		if c.ShardN <= 0 {
 			c.ShardN = 1
 		}
+	}
+	if s := os.Getenv("VERIF_WHEN"); s != "" {
+		_ = json.Unmarshal([]byte(s), &c.When)
 	}
 	for _, k := range strings.Split(os.Getenv("VERIF_KEYS"), ",") {
 		k = strings.TrimSpace(k)
@@ -199,6 +210,11 @@ func Run(t *testing.T, module string, mk func() Stepper) {
 			rep.Errors = append(rep.Errors, fmt.Sprintf("behaviour %d: %v", idx, err))
 			continue
 		}
+		if rep.MismatchTotal >= cfg.MaxMism*3 {
+			// fail fast: enough violating behaviours were recorded; the rest would only cost time
+			rep.Extra["stopped_early_at_behaviour"] = idx
+			break
+		}
 		rep.Behaviours++
 		if len(rep.Samples) < 3 {
 			rep.Samples = append(rep.Samples, compact(b))
@@ -206,6 +222,9 @@ func Run(t *testing.T, module string, mk func() Stepper) {
 		relevant := false
 		for d := 0; d < cfg.Draws; d++ {
 			seed := cfg.Seed*1000003 + int64(idx)*131 + int64(d)
+			if fs := os.Getenv("VERIF_FIXED_SEED"); fs != "" {
+				seed, _ = strconv.ParseInt(fs, 10, 64)
+			}
 			rel := runOne(cfg, rep, mk, b, idx, d, seed)
 			relevant = relevant || rel
 		}
@@ -267,8 +286,9 @@ func runOne(cfg Config, rep *Report, mk func() Stepper, b Behaviour, idx, draw i
 		sort.Strings(keys)
 		stepRelevant := false
 		diverged := false
+		inScope := whenMatches(cfg.When, s.Args)
 		for _, k := range keys {
-			judged := cfg.AllKeys || cfg.Keys[k]
+			judged := (cfg.AllKeys || cfg.Keys[k]) && inScope
 			var ov any
 			var have bool
 			if p, ok := obs["__panic__"]; ok {
@@ -324,6 +344,26 @@ func runOne(cfg Config, rep *Report, mk func() Stepper, b Behaviour, idx, draw i
 		}
 	}
 	return relevant
+}
+
+func whenMatches(when map[string][]any, args map[string]any) bool {
+	for k, allowed := range when {
+		v, ok := args[k]
+		if !ok {
+			return false
+		}
+		hit := false
+		for _, a := range allowed {
+			if Equal(a, v) {
+				hit = true
+				break
+			}
+		}
+		if !hit {
+			return false
+		}
+	}
+	return true
 }
 
 func safeStep(st Stepper, i int, s Step) (obs Obs, err error) {
